@@ -50,7 +50,7 @@ PROPS = {
                         shared=['the compiled acceleration evaluator is used by both sides (its correctness is C03\'s subject)']),
         assumptions=['tracing steppers/equations: exact equality; shipped steppers: relative 1e-13',
                      'steppers index their arrays only by d_idx (rigid-body steppers with body-indexed arrays are left out)'],
-        quick=dict(runs=1200, budget_s=100),
+        quick=dict(runs=3000, budget_s=100),
         thorough=dict(runs=300000, budget_s=2400),
     ),
 }
